@@ -264,6 +264,19 @@ func runC20(c *Ctx) {
 		if n == 0 {
 			bad = "the Walk callback never adds a file"
 		}
+		// nothing else prunes the walk: the callback returns nil or the error it
+		// was handed (a filepath.SkipDir or a private error hides part of the tree)
+		errP := paramNamed(w, "err")
+		for _, rc := range gw.ReturnCases() {
+			if len(rc.Vals) != 1 || bad != "" {
+				continue
+			}
+			v := rc.Vals[0]
+			if isNilConst(v) || (errP != nil && stripConv(v) == ssa.Value(errP)) {
+				continue
+			}
+			bad = "the Walk callback returns " + describe(v) + ": it skips or aborts part of the source tree for a reason other than a walk error, so annotations there are not found"
+		}
 		c.check(bad == "", "C20.R2", "files-scanned "+m.fnName(w), "a path is added only on the .go, not-_test.go, not-directory side", bad, m.pos(w.Pos()))
 	}
 	// the append in FindRedirects
